@@ -146,13 +146,14 @@ let () = register "adaptive_withg" (fun a ->
 (* one meta object for two calls: the model is a function of the second array only *)
 let () = register "adaptive_rt2" (fun a ->
   let xs = nlist_of_arg a.(1) in
+  out_str "b2b" "same";
   adp_analysis xs;
   adp_roundtrip xs None)
 
 let () = register "adaptive_with2" (fun a ->
   let e = n_of_string a.(0) in
-  if int_of_n e = 1 && nlist_of_arg a.(1) = [] then out_str "skip" "ub"
-  else adp_roundtrip (nlist_of_arg a.(2)) (Some e))
+  if int_of_n e = 1 && (nlist_of_arg a.(1) = [] || nlist_of_arg a.(2) = []) then out_str "skip" "ub"
+  else begin out_str "b2b" "same"; adp_roundtrip (nlist_of_arg a.(2)) (Some e) end)
 
 let () = register "adaptive_dec_cap" (fun a ->
   let e = n_of_string a.(0) in
